@@ -367,20 +367,9 @@ LATEX_ID_CONTEXT = re.compile(
 
 
 def _prev_literal(f, call):
-    """String literal printed by the sink call immediately before `call` in the same statement list."""
-    p = f.parent(call)
-    while p is not None and p["k"] not in ("CompoundStmt", "CaseStmt", "DefaultStmt"):
-        call, p = p, f.parent(p)
-    if p is None:
-        return None
-    sibs = [c for c in p["c"] if c is not None]
-    idx = None
-    for i, c in enumerate(sibs):
-        if c is call:
-            idx = i
-    if idx is None:
-        return None
-
+    """The literal text that is printed immediately before `call` on every path: the nearest preceding statement that
+    prints (looking through enclosing blocks - the first statement of a branch continues at the statement before the
+    `if`), skipping statements that print nothing and `if`s that only add literal text."""
     def lit_of(st):
         st = strip(st)
         if st is not None and st["k"] == "CallExpr" and st.get("callee") in ("d_string_append", "d_string_append_c_array") and len(st["c"]) > 2:
@@ -389,20 +378,39 @@ def _prev_literal(f, call):
                 return a["s"]
         return None
 
-    out = ""
-    j = idx - 1
-    while j >= 0:
-        st = sibs[j]
-        l = lit_of(st)
-        if l is not None:
-            return l + out
-        if st["k"] == "IfStmt":
-            # an `if` that only adds literal text (e.g. the optional "mailto:" prefix) does not end the context
-            calls = [x for x in walk(st) if x["k"] == "CallExpr" and x.get("callee", "").startswith("d_string_")]
-            if calls and all(lit_of(x) is not None for x in calls):
-                j -= 1
+    def prints(st):
+        return [x for x in walk(st) if x["k"] == "CallExpr" and (
+            (x.get("callee") or "").startswith("d_string_") or (x.get("callee") or "").startswith("mmd_print") or
+            (x.get("callee") or "").startswith("mmd_export"))]
+    node = call
+    for _ in range(6):
+        p = f.parent(node)
+        while p is not None and p["k"] not in ("CompoundStmt", "CaseStmt", "DefaultStmt"):
+            node, p = p, f.parent(p)
+        if p is None:
+            return None
+        sibs = [c for c in p["c"] if c is not None]
+        idx = next((i2 for i2, c in enumerate(sibs) if c is node), None)
+        if idx is None:
+            return None
+        j2 = idx - 1
+        while j2 >= 0:
+            st = sibs[j2]
+            l = lit_of(st)
+            if l is not None:
+                return l
+            pr = prints(st)
+            if not pr:
+                j2 -= 1              # prints nothing (assignment, free, ...)
                 continue
-        return None
+            if st["k"] == "IfStmt" and all(lit_of(x) is not None for x in pr):
+                j2 -= 1              # an `if` that only adds literal text (optional "mailto:" prefix)
+                continue
+            return None
+        # first printing statement of this block: continue before the enclosing statement
+        node = p
+        if p["k"] in ("CaseStmt", "DefaultStmt"):
+            return None
     return None
 
 
